@@ -39,8 +39,9 @@
                        twice).  Off = the fetcher remembers cf.link at start() and every callback first reads cf.link
                        (one more visible read): not its link -> it unregisters itself and returns
      "openReread"      open_link stores the driver in self.link and reads self.link again to test it
-     "errInSender"     a link error reported synchronously from link.send_packet is handled in the sending
-                       thread, i.e. under _send_lock (fan-out, join of the ping thread included)
+     "errInSender"     a link error reported synchronously from link.send_packet is handled at once in the sending
+                       thread, i.e. under _send_lock (fan-out, join of the ping thread included).  Off = it is
+                       remembered and handled by the same thread right after send_packet released the lock
      "errStateRace"    _link_error_cb / _check_for_initial_packet_cb read-modify state without mutual exclusion
                        and open_link/close_link do not wait for a running error report                 *)
 EXTENDS Naturals, Sequences, FiniteSets, TLC
@@ -184,8 +185,10 @@ UseEffect(t, r, L, req, ch) ==
          THEN IF Has("errInSender")
               THEN R([g EXCEPT !.nfault = @ + 1, !.faulted = @ \cup {L}],
                      Append(Goto(r.s, "s_rel"), F("lerr", "e_rs0", L, 0)), <<HBeg("lerr", L)>>, {})
-              ELSE \* repaired: the report is handed to a thread of its own, outside _send_lock
-                   R([g EXCEPT !.nfault = @ + 1, !.faulted = @ \cup {L}], Goto(r.s, "s_rel"), <<>>, {ErrOf(L)})
+              ELSE \* the report is only remembered (_sender_errors) -- after reading state for the log message -- and
+                   \* handled by this thread as soon as send_packet has released _send_lock (frame.a = 1000 + L)
+                   R([g EXCEPT !.nfault = @ + 1, !.faulted = @ \cup {L}],
+                     Append(SetTop(r.s, F("send", "s_rel", 1000 + L, Top(r.s).b)), F("evt", "x_rs", 0, 0)), <<>>, {})
     ELSE LET g1 == [g EXCEPT !.inq[L] = IF req = SETP THEN @ ELSE Append(@, req)] IN
          IF ch = "driver"
          THEN R([g1 EXCEPT !.nfault = @ + 1, !.faulted = @ \cup {L}], Goto(r.s, "s_rel"), <<>>, {ErrOf(L)})
@@ -199,7 +202,10 @@ SendStep(t, f, ch) ==
                                  ELSE UseEffect(t, r, g.link, f.a, ch)        \* repaired: one read, used from a local
       [] f.pc = "s_nr"   -> IF g.link = 0 THEN Raise(t, r) ELSE R(g, Goto(r.s, "s_use"), <<>>, {})
       [] f.pc = "s_use"  -> IF g.link = 0 THEN Raise(t, r) ELSE UseEffect(t, r, g.link, f.a, ch)
-      [] f.pc = "s_rel"  -> R([g EXCEPT !.lock = "free"], Goto(r.s, "x_done"), <<>>, {})
+      [] f.pc = "s_rel"  -> IF f.a >= 1000
+                            THEN R([g EXCEPT !.lock = "free"], SetTop(r.s, F("lerr", "e_rs0", f.a - 1000, 0)),
+                                   <<HBeg("lerr", f.a - 1000)>>, {})
+                            ELSE R([g EXCEPT !.lock = "free"], Goto(r.s, "x_done"), <<>>, {})
 
 \* --- _link_error_cb:  f.a = attempt whose link failed ------------------------------------------
 LerrStep(t, f, ch) ==
@@ -249,7 +255,8 @@ FanStep(t, f, ch) ==
       [] f.pc = "f_sset_c" -> R([g EXCEPT !.sConn = "set"], Goto(r.s, "f_done"), <<>>, {})
 
 \* --- a single Event.set of the wrapper inside a callback ----------------------------------------
-EvtStep(t, f, ch) == R([g EXCEPT !.sConn = "set"], Goto(stk[t], "x_done"), <<>>, {})
+EvtStep(t, f, ch) == IF f.pc = "x_rs" THEN R(g, Goto(stk[t], "x_done"), <<>>, {})      \* state read for the log message
+                     ELSE R([g EXCEPT !.sConn = "set"], Goto(stk[t], "x_done"), <<>>, {})
 
 \* --- open_link(n):  f.a = n, f.b = value written to link ----------------------------------------
 OpenEn(t, f, ch) ==
@@ -447,7 +454,7 @@ OpOfPc(pc) ==
       [] pc \in {"s_test", "s_nr", "s_use", "e_rl1", "e_rl2", "o_rl", "o_x_rl", "o_x_rl2", "c_rl1", "c_rl2", "c_rl3",
                  "d_rl1", "d_rl2", "u_rl", "d_srl", "d_frl", "d_slrl"} -> "rl"
       [] pc \in {"e_wl", "o_wl", "o_x_wl", "c_wl"} -> "wl"
-      [] pc \in {"e_rs0", "e_rs1", "e_rs2", "e_rs3", "e_rs4"} -> "rs"
+      [] pc \in {"e_rs0", "e_rs1", "e_rs2", "e_rs3", "e_rs4", "x_rs"} -> "rs"
       [] pc \in {"e_ws", "o_ws", "c_ws", "d_ws"} -> "ws"
       [] pc \in {"e_begin", "d_begin", "u_begin", "p_begin"} -> "begin"
       [] pc = "e_atom" -> "la"
